@@ -1,0 +1,156 @@
+//go:build verif
+// +build verif
+
+package times
+
+// Contracts for the lvc verifier (see /verif/DESIGN.md). This file is only
+// compiled with -tags=verif. It holds //@ clauses (read by lvc) and pure,
+// loop-free spec functions that the clauses call.
+
+// specND is the number of decimal digits of v (1 for v == 0).
+func specND(v uint64) int {
+	if v < 10 {
+		return 1
+	}
+	if v < 100 {
+		return 2
+	}
+	if v < 1000 {
+		return 3
+	}
+	if v < 10000 {
+		return 4
+	}
+	if v < 100000 {
+		return 5
+	}
+	if v < 1000000 {
+		return 6
+	}
+	if v < 10000000 {
+		return 7
+	}
+	if v < 100000000 {
+		return 8
+	}
+	if v < 1000000000 {
+		return 9
+	}
+	if v < 10000000000 {
+		return 10
+	}
+	if v < 100000000000 {
+		return 11
+	}
+	if v < 1000000000000 {
+		return 12
+	}
+	if v < 10000000000000 {
+		return 13
+	}
+	if v < 100000000000000 {
+		return 14
+	}
+	if v < 1000000000000000 {
+		return 15
+	}
+	if v < 10000000000000000 {
+		return 16
+	}
+	if v < 100000000000000000 {
+		return 17
+	}
+	if v < 1000000000000000000 {
+		return 18
+	}
+	if v < 10000000000000000000 {
+		return 19
+	}
+	return 20
+}
+
+// specND0 is specND except that 0 has no digits.
+func specND0(v uint64) int {
+	if v == 0 {
+		return 0
+	}
+	return specND(v)
+}
+
+//@ func fmtInt
+//@   props C20
+//@   requires [C20.room] len(buf) >= specND(v)
+//@   assigns buf[len(buf)-specND(v):len(buf)]
+//@   ensures [C20.w] result == len(buf) - specND(v)
+//@   loop 1 invariant [C20.inv] w - specND0(v) == len(buf) - specND(old(v)) && w >= specND0(v) && w <= len(buf)
+//@   loop 1 invariant [C20.frame] forall(i, 0, w, buf[i] == old(buf[i]))
+//@   loop 1 decreases v
+
+// specDivPow10 is v / 10**k for 0 <= k <= 9.
+func specDivPow10(v uint64, k int) uint64 {
+	if k == 0 {
+		return v
+	}
+	if k == 1 {
+		return v / 10
+	}
+	if k == 2 {
+		return v / 100
+	}
+	if k == 3 {
+		return v / 1000
+	}
+	if k == 4 {
+		return v / 10000
+	}
+	if k == 5 {
+		return v / 100000
+	}
+	if k == 6 {
+		return v / 1000000
+	}
+	if k == 7 {
+		return v / 10000000
+	}
+	if k == 8 {
+		return v / 100000000
+	}
+	return v / 1000000000
+}
+
+//@ func fmtFrac
+//@   props C20
+//@   requires [C20.prec] 0 <= prec && prec <= 9
+//@   requires [C20.room] prec == 0 || len(buf) >= prec + 1
+//@   assigns buf[len(buf)-prec-1:len(buf)]
+//@   ensures [C20.w] nw <= len(buf) && nw >= len(buf) - prec - 1 && implies(prec == 0, nw == len(buf))
+//@   ensures [C20.v] nv == specDivPow10(v, prec)
+//@   loop 1 invariant [C20.inv] 0 <= i && i <= prec && w <= len(buf) && w >= len(buf) - i && (printed || w == len(buf)) && implies(printed, i > 0) && v == specDivPow10(old(v), i)
+//@   loop 1 invariant [C20.frame] forall(k, 0, w, buf[k] == old(buf[k]))
+//@   loop 1 decreases prec - i
+
+//@ func fmtMsec
+//@   props C20
+//@   requires [C20.w] w == len(buf)
+//@   requires [C20.u] u < 1000000000
+//@   requires [C20.room] len(buf) >= 11
+//@   assigns buf[len(buf)-11:len(buf)]
+//@   ensures [C20.nw] nw >= len(buf) - 11 && nw < len(buf)
+
+//@ func fmtSeconds
+//@   props C20
+//@   requires [C20.w] w == len(buf)
+//@   requires [C20.u] u < 1000000000
+//@   requires [C20.room] len(buf) >= 12
+//@   assigns buf[len(buf)-12:len(buf)]
+//@   ensures [C20.nw] nw >= len(buf) - 12 && nw < len(buf)
+
+//@ func shortDurFormat
+//@   props C20
+//@   requires buf != nil
+//@   assigns buf[0:32]
+//@   ensures [C20.total] 0 <= result && result < 32
+
+//@ func shortDur
+//@   props C20
+//@   ensures [C20.total] len(result) >= 1 && len(result) <= 32
